@@ -117,4 +117,18 @@ CONTRACTS = [
             "rows-equal-so-far": "forall(lambda v: forall(lambda j: accessor[v][j] == acc0[v][j], 0, 4), 0, pv_, lambda v: accessor[v])",
         }, variant="ipow(4, observed_length) - pv_")},
     ),
+    # ------------------------------------------------------------------ C19 (callee of remove_nasty_arc)
+    dict(
+        # ASSUMED, not verified here (breadth-first leaf sets over dict / list / union1d are outside the modelled subset): the score matrix has the
+        # accessor's shape, its entries are >= 0, and computing it modifies nothing.  The bounded tier (bounded/C19.py) checks shape, sign,
+        # 'positive only on arcs' and the value against an independent restatement of the scoring scheme on every generated graph it visits.
+        name="dsw.graphized.calculate_intersection_score", assumed=True, n_loops=0,
+        params={"latter_map": "dict", "observed_length": "nat", "has_insertion": "bool", "has_deletion": "bool", "verbose": "false"},
+        requires={}, returns="mat(ipow(4, observed_length), 4)",
+        ensures={"non-negative": "forall(lambda v: forall(lambda j: result[v][j] >= 0, 0, 4), 0, ipow(4, observed_length), lambda v: result[v])",
+                 # the table is a function of the graph, the order and the two flags (iscore: uninterpreted - what the score is, is not stated here)
+                 "is-the-score-table": "forall(lambda v: forall(lambda j: result[v][j] == iscore(latter_map, observed_length, has_insertion, has_deletion, v, j), "
+                                       "0, 4), 0, ipow(4, observed_length), lambda v: result[v])"},
+        raises={},
+    ),
 ]
